@@ -43,7 +43,7 @@ fn drop_closure_h<const N: usize>() {
     kani::assert(dlog().n == len, "erased destructor: exactly len destructor calls");
     let i: usize = kani::any();
     kani::assume(i < len);
-    kani::assert(dlog().at[i] == base + i * size_of::<L<N>>(), "erased destructor: the i-th call destroys the element at ptr + i x size_of::<T>()");
+    kani::assert(N == 0 || dlog().at[i] == base + i * size_of::<L<N>>(), "erased destructor: the i-th call destroys the element at ptr + i x size_of::<T>()");
     kani::cover!(len == LB, "COV bound reached");
     kani::cover!(true, "REACHED");
 }
@@ -60,7 +60,8 @@ fn clone_fn_h<const N: usize>() {
     kani::assert(clog().n == len && dlog().n == 0, "clone_fn: exactly len clone calls, nothing destroyed");
     let i: usize = kani::any();
     kani::assume(i < len);
-    kani::assert(clog().at[i] == src.as_ptr() as usize + i * size_of::<L<N>>(), "clone_fn: the i-th call clones the source element i");
+    // (zero-sized elements have no distinguishing address: for them the accounting is by count)
+    kani::assert(N == 0 || clog().at[i] == src.as_ptr() as usize + i * size_of::<L<N>>(), "clone_fn: the i-th call clones the source element i");
     if N > 0 {
         let d = unsafe { &*(dst.as_ptr().add(i) as *const L<N>) };
         kani::assert(d.0[0] == src[i].0[0].wrapping_add(1), "clone_fn: slot i of the target holds the clone of source element i");
